@@ -217,6 +217,7 @@ class Check:
     def __init__(self, prop, tier, seed):
         self.prop = prop
         self.tier = tier
+        os.environ["VERIF_TIER_EFFECTIVE"] = tier   # read by run_pipe for the stream time limit
         self.seed = seed
         self.t0 = time.time()
         self.violations = []   # (replay_path, no_failing_input_found)
@@ -338,10 +339,26 @@ def run_pipe(harness_cmd, driver_cmd, keep=None, timeout=None):
     else:
         src = h.stdout
     d = subprocess.Popen(driver_cmd, stdin=src, stdout=subprocess.PIPE, stderr=subprocess.STDOUT, text=True)
-    out, _ = d.communicate(timeout=timeout)
+    # a harness or driver that hangs (seen once: the C04 driver on a mutated tree whose root clock frequency was truncated to 0) must not
+    # hang the check: after the time limit both are killed and the stream counts as crashed (= correspondence broken, reported)
+    if timeout is None:
+        timeout = int(os.environ.get("VERIF_STREAM_TIMEOUT", "0")) or (5400 if os.environ.get("VERIF_TIER_EFFECTIVE", "quick") == "thorough" else 1200)
+    timed_out = False
+    try:
+        out, _ = d.communicate(timeout=timeout)
+    except subprocess.TimeoutExpired:
+        timed_out = True
+        for p in [h, d] + ([tee] if keep else []):
+            try:
+                p.kill()
+            except Exception:
+                pass
+        out, _ = d.communicate()
     herr = h.stderr.read().decode(errors="replace")
     h.wait()
-    return out.splitlines(), h.returncode, d.returncode, herr[-3000:]
+    if timed_out:
+        herr += "\nTIMEOUT: harness | driver did not finish within %d s and was killed" % timeout
+    return (out or "").splitlines(), h.returncode, d.returncode, herr[-3000:]
 
 
 def driver_path(name):
